@@ -78,7 +78,9 @@ theorem epoch_secrets_function {B : Type} (P : MlsVerif.KS.Prim B) (i c ctx psk 
 theorem all_members_hold_their_keys {w : World} (h : ReachableWorld w) : w.Good :=
   MlsVerif.Props.C09.reachable_world_good h
 
-/-- the epoch number moves by exactly one per accepted commit -/
+/-- the epoch number moves by exactly one per installed commit: whenever a step changes a member's state, the new
+state is exactly one epoch later (a member removed by the commit it processes keeps its state and epoch — `hne` fails —
+see `C11.removed_receiver_stays`; `C11.step_member` gives the full stays-or-plus-one alternative) -/
 theorem epoch_moves_by_one (w : MlsVerif.Pending.World) (op : MlsVerif.Pending.Op) (hi : MlsVerif.Pending.Inv w)
     (m : Nat) (x x' : MlsVerif.Pending.Member)
     (hm : w.members[m]? = some x) (hm' : (MlsVerif.Pending.step w op).1.members[m]? = some x')
